@@ -46,6 +46,8 @@ def frames_of(spec):
     def col(vals, kind):
         if kind == 'quanti':
             return pd.Series([np.nan if v is None else float(v) for v in vals], dtype=spec.get('float_dtype', 'float64'))
+        if spec.get('int_dtype_columns') and vals and all(isinstance(v, int) and not isinstance(v, bool) for v in vals):
+            return pd.Series(vals, dtype='int64')          # numeric categories in an integer column (numpy integers, not python ints)
         return pd.Series([np.nan if v is None else v for v in vals], dtype=object)
 
     feats = spec['features']
@@ -76,6 +78,13 @@ def build(spec):
     categ = [f for f, d in feats.items() if d['kind'] == 'categ']
     ordinal = [f for f, d in feats.items() if d['kind'] == 'ordinal']
     orders = {f: list(d['order']) for f, d in feats.items() if d.get('order') is not None}
+    for f, d in feats.items():
+        # a categorical (non-ordinal) feature may come with an entry in values_orders too: its known categories
+        # listed in any order ('listed'), or a previous grouping reused ('preset': leader -> members)
+        if d.get('listed') is not None:
+            orders[f] = list(d['listed'])
+        if d.get('preset') is not None:
+            orders[f] = D.GroupedList({k: list(v) for k, v in d['preset'].items()})
     X, y, Xd, yd = frames_of(spec)
     fitkw = {}
     mf = p.get('min_freq', [1, 10])
@@ -367,7 +376,7 @@ class History:
         except Exception:
             json_ok = False
         ev = {'ev': 'reload', 'obj': idx, 'src': src, 'json_ok': json_ok, 'outcome': 0, 'json_idempotent': True,
-              'summary_equal': True}
+              'summary_equal': True, 'history_equal': True}
         if json_ok:
             is_carver = hasattr(o, '_history') and isinstance(getattr(o, '_history'), dict)
             fn = loader or (load_carver if is_carver else load_discretizer)
@@ -397,6 +406,20 @@ class History:
                                                    and all(a == b for a, b in zip(s1.values.tolist(), s2.values.tolist())))
                     except Exception:
                         ev['summary_equal'] = False
+                # history() of a restored carver tells the same story (raw distribution, tested combinations, verdicts)
+                if is_carver and hasattr(o, 'history'):
+                    def hist(obj):
+                        try:
+                            fr = obj.history()
+                            keys = ('feature', 'combination', 'viability', 'grouping_nan', 'cramerv', 'tschuprowt', 'kruskal')
+                            kept = set(obj.features)
+                            rows = [{k: r[k] for k in keys if k in r} for r in fr.reset_index(drop=True).to_dict('records')
+                                    if r.get('feature') in kept and 'combination' in r and not isnan(r.get('combination'))]
+                            return json.dumps(rows, default=str, sort_keys=True), None
+                        except Exception as e2:
+                            return None, type(e2).__name__
+                    (h1, hx1), (h2, hx2) = hist(o), hist(o2)
+                    ev['history_equal'] = (h1 == h2) if (h1 is not None and h2 is not None) else (hx1 == hx2)
         if o2 is None:
             o2 = o
         self.objs[idx] = o2
@@ -633,7 +656,7 @@ class Encoder:
                 e['named'] = (fnames.index(named[0]) + 1) if (named and named[0] in fnames) else 0
             elif ev['ev'] == 'reload':
                 e.update({'src': ev['src'], 'json_ok': bool(ev['json_ok']), 'json_idempotent': bool(ev['json_idempotent']),
-                          'summary_equal': bool(ev['summary_equal'])})
+                          'summary_equal': bool(ev['summary_equal']), 'history_equal': bool(ev.get('history_equal', True))})
             elif ev['ev'] == 'update':
                 f = ev['f_name']
                 e['f'] = names.index(f) + 1 if f in names else 0
